@@ -65,6 +65,13 @@ def check_frame(out, rng, fr, sess, pending):
     return
   cond = en.conditioned(px, py)
   rescales = [1.0, rng.choice([0.5, 2.0, 0.125, -1.0, -0.25])]
+  try:
+    en.real_posterior(m, 1.0)
+    m.summary(report='all')
+  except Exception as e:
+    out.oracle_violation(dict(facts, symptom='exception', exception=type(e).__name__), case,
+                         f'posterior / summary raised {type(e).__name__}: {str(e)[:150]} (integer-valued columns: {fr.get("int_values")})')
+    return
   for rs in rescales:
     loc, scale, df = en.real_posterior(m, rs)
     kl, ks, kdf = en.kerman(px, py, tx, ty, rs)
